@@ -281,3 +281,22 @@ def canon(rows):
 
 def named(rows):
     return [{(k if isinstance(k, str) else k.qualified_name): v for k, v in r.items()} for r in rows]
+
+
+def subexpressions(e):
+    """Every node of an expression / predicate / container tree (pre-order)."""
+    yield e
+    if isinstance(e, (R.ColumnFunction, R.PredicateFunction)):
+        for a in e.args:
+            yield from subexpressions(a)
+    elif isinstance(e, (R.LogicalAnd, R.LogicalOr)):
+        for a in e.operands:
+            yield from subexpressions(a)
+    elif isinstance(e, R.LogicalNot):
+        yield from subexpressions(e.operand)
+    elif isinstance(e, R.ColumnInContainer):
+        yield from subexpressions(e.item)
+        yield from subexpressions(e.container)
+    elif isinstance(e, R.ColumnExpressionSequence):
+        for a in e.items:
+            yield from subexpressions(a)
